@@ -96,6 +96,16 @@ def build_posterior(case):
             uniform_prior(nt + (0 if case['sigma_fixed'] else n_obs)),
             sigma=[0.2, 0.3][:n_obs] if case['sigma_fixed'] else None,
             n_samples=case['n_sim']), None
+    if case['kind'] == 'individual' and case.get('n_out', 1) > 1:
+        # several outputs with their own error parameters
+        k_ = case['n_out']
+        ll = chi.LogLikelihood(
+            ToyModel(2, k_), [chi.GaussianErrorModel() for _ in range(k_)],
+            [[1.0 + 0.2 * j_, 2.0, 1.5 - 0.1 * j_][:3 - j_ % 2] for j_ in range(k_)],
+            [[0.3, 0.9, 1.4][:3 - j_ % 2] for j_ in range(k_)])
+        if case.get('id') is not None:
+            ll.set_id(case['id'])
+        return chi.LogPosterior(ll, uniform_prior(2 + k_)), None
     if case['kind'] == 'individual':
         ll = chi.LogLikelihood(
             ToyModel(2, 1), chi.GaussianErrorModel(), [1.0, 2.0, 1.5],
@@ -449,8 +459,23 @@ def _readback(case, post, hcase, ds, viol, lab, n_runs, n_draws):
             return
         for c in range(n_runs):
             for d in range(n_draws):
-                x = np.array([10000.0 * c + 100.0 * d + p for p in range(3)])
+                x = np.array([10000.0 * c + 100.0 * d + p
+                              for p in range(post.n_parameters())])
                 e = ll.compute_pointwise_ll(x)
+                k_out = case.get('n_out', 1)
+                if k_out > 1:
+                    # independent of the likelihood's own bookkeeping: Gaussian
+                    # log-densities of output j with ITS sigma (dataset column 2 + j)
+                    from ..ref import toy as _toy
+                    e = []
+                    for j_ in range(k_out):
+                        t_ = [0.3, 0.9, 1.4][:3 - j_ % 2]
+                        y_ = [1.0 + 0.2 * j_, 2.0, 1.5 - 0.1 * j_][:3 - j_ % 2]
+                        yb_ = np.real(_toy.evaluate(x[:2], t_, k_out))[j_]
+                        sg_ = x[2 + j_]
+                        e += list(-0.5 * np.log(2 * np.pi * sg_ ** 2)
+                                  - (np.array(y_) - yb_) ** 2 / (2 * sg_ ** 2))
+                    e = np.array(e)
                 g = pw.sel(chain=c, draw=d).values
                 if not tol.allclose(g, e):
                     viol.append({'sub': 'pointwise', 'message': 'pointwise '
@@ -725,6 +750,9 @@ def build(tier, seed):
                     'transform': True})
     fmt.append({'kind': 'individual', 'id': 'x7', 'n_runs': 2, 'n_draws': 2,
                 'transform': True})
+    for n_out in (2, 3, 4):
+        fmt.append({'kind': 'individual', 'id': 'x7', 'n_runs': 2, 'n_draws': 2,
+                    'n_out': n_out})
     for n_runs in (1, 2, 3):
         for n_draws in (1, 2, 3):
             fmt.append({'kind': 'individual', 'id': 'x7', 'n_runs': n_runs,
